@@ -69,6 +69,8 @@ type c39Case struct {
 //	7 (k3,a)  8 (k3,b)                the same for an RSA key
 //	9 (k1, x509 of 0)                 CertificateFromX509(k1, certificate 0's x509): the same
 //	                                  x509 certificate held with another key
+//	10 (k4, x509 of 7)                the same for RSA: another RSA key k4 with certificate 7's x509
+//	11 (k0, x509 of 7)                an ECDSA key with the RSA certificate 7's x509 (key type differs)
 var (
 	c39Certs   []webrtc.Certificate
 	c39KeyIDs  = map[string]int{} // PKCS#8 bytes of a private key -> key id
@@ -136,9 +138,11 @@ func c39BuildPool() {
 		must(err)
 		keys = append(keys, sk)
 	}
-	rk, err := rsa.GenerateKey(rand.Reader, 2048)
-	must(err)
-	keys = append(keys, rk)
+	for i := 0; i < 2; i++ { // k3, k4
+		rk, err := rsa.GenerateKey(rand.Reader, 2048)
+		must(err)
+		keys = append(keys, rk)
+	}
 	for i, k := range keys {
 		b, err := x509.MarshalPKCS8PrivateKey(k)
 		must(err)
@@ -155,7 +159,7 @@ func c39BuildPool() {
 		blk, _ := pem.Decode([]byte(text))
 		return blk.Bytes
 	}
-	pool := make([]webrtc.Certificate, 10)
+	pool := make([]webrtc.Certificate, 12)
 	pool[0], pool[1], pool[2] = gen(0), gen(1), gen(2)
 	pool[3] = webrtc.Certificate{}
 	pool[4], pool[5] = gen(0), gen(1)
@@ -168,6 +172,10 @@ func c39BuildPool() {
 	x0, err := x509.ParseCertificate(derOf(pool[0]))
 	must(err)
 	pool[9] = webrtc.CertificateFromX509(keys[1], x0)
+	x7, err := x509.ParseCertificate(derOf(pool[7]))
+	must(err)
+	pool[10] = webrtc.CertificateFromX509(keys[4], x7)
+	pool[11] = webrtc.CertificateFromX509(keys[0], x7)
 	for _, i := range []int{0, 1, 2, 4, 5, 7, 8} {
 		c39X509IDs[string(derOf(pool[i]))] = i
 	}
@@ -739,14 +747,22 @@ func c39ChangeCerts(r *Rand, cur []int) []int {
 			}
 			return append(out, out[0])
 		case 6: // the same x509 certificate held with another key
-			if subst(func(x int) (int, bool) { return 9, x == 0 || x == 6 }) {
+			if subst(func(x int) (int, bool) {
+				switch x {
+				case 0, 6:
+					return 9, true
+				case 7:
+					return Pick(r, []int{10, 11}), true
+				}
+				return 0, false
+			}) {
 				return out
 			}
 		case 7: // an entry dropped
 			return out[:len(out)-1]
 		}
 	}
-	return Pick(r, [][]int{{0}, {1}, {2}, {4}, {7}, {8}, {0, 1}, {1, 0}, {0, 4}, {0, 1, 2}, {3}, {0, 3}, {9}, {6}})
+	return Pick(r, [][]int{{0}, {1}, {2}, {4}, {7}, {8}, {0, 1}, {1, 0}, {0, 4}, {0, 1, 2}, {3}, {0, 3}, {9}, {6}, {10}, {11}})
 }
 
 func c39GenCase(r *Rand, i int) c39Case {
@@ -798,7 +814,7 @@ func init() {
 	Register(Spec[c39Case]{
 		ID: "C39", Suite: "hist", CoqImports: []string{"Check.C39"},
 		CoqType: "config * list istep", CoqRun: "Check.C39.run",
-		Quick: 600, Thorough: 40000, Parallel: 8,
+		Quick: 600, Thorough: 25000, Parallel: 8,
 		Corpus: func() []c39Case {
 			base := c39Config{Servers: []c39Server{}, Certs: []int{0}, Identity: "a", Bundle: 2, RTCPMux: 1, Pool: 1}
 			same := base
@@ -818,7 +834,9 @@ func init() {
 				{Init: base, Steps: []c39Step{set(c39Config{Servers: []c39Server{}, Certs: []int{4}}), {K: 1},
 					set(c39Config{Servers: []c39Server{}, Certs: []int{4}})}},
 				{Init: c39Config{Servers: []c39Server{}, Certs: []int{7, 1}}, Steps: []c39Step{
-					set(c39Config{Servers: []c39Server{}, Certs: []int{8, 1}}), set(c39Config{Servers: []c39Server{}, Certs: []int{7, 5}})}},
+					set(c39Config{Servers: []c39Server{}, Certs: []int{8, 1}}), set(c39Config{Servers: []c39Server{}, Certs: []int{7, 5}}),
+					set(c39Config{Servers: []c39Server{}, Certs: []int{10, 1}}), set(c39Config{Servers: []c39Server{}, Certs: []int{11, 1}}),
+					set(c39Config{Servers: []c39Server{}, Certs: []int{7, 1}})}},
 				// the same certificate re-imported from PEM is the same certificate
 				{Init: base, Steps: []c39Step{set(c39Config{Servers: []c39Server{}, Certs: []int{6}, Policy: 1}),
 					set(c39Config{Servers: []c39Server{}, Certs: []int{0}})}},
